@@ -1166,8 +1166,16 @@ def oracle_C08(L, K, lines, steps, spec):
                 v.append("step %d %s: get_allocator() is %d, allocator_traits prescribe %d" % (i, sp["op"], ov["aid"], av.aid))
             if ov["bid"] in owner and not alloc_eq(K, owner[ov["bid"]], ov["aid"]):
                 v.append("step %d %s: vector with allocator %d owns block %d of allocator %d" % (i, sp["op"], ov["aid"], ov["bid"], owner[ov["bid"]]))
-        if sp["op"] == "moveassign" and sp["args"][0] != sp["args"][1]:
-            pass
+        # ... and the same for every ContiguousElement: get_allocator() as allocator_traits
+        # prescribe, and no block of an allocator unequal to it (seeded changes C07i, C08i)
+        for s, oe in st.get("elems", {}).items():
+            ae = sp.get("eslots", {}).get(s)
+            if ae is None:
+                continue
+            if sp["op"] in ("efromref", "ecopy", "ecopyalloc", "emove", "emovealloc", "ecopyassign", "emoveassign", "eswap") and oe["aid"] != ae["aid"]:
+                v.append("step %d %s: element %d get_allocator() is %d, allocator_traits prescribe %d" % (i, sp["op"], s, oe["aid"], ae["aid"]))
+            if oe["bid"] in owner and not alloc_eq(K, owner[oe["bid"]], oe["aid"]):
+                v.append("step %d %s: element %d with allocator %d owns block %d of allocator %d" % (i, sp["op"], s, oe["aid"], oe["bid"], owner[oe["bid"]]))
     return v[:5]
 
 
